@@ -24,7 +24,8 @@ class C02(Property):
                          "parseBits_printBits_f64", "parseBits_printBits_f32", "parseBits_printBits", "printBits_clean", "printBits_ne_nil",
                          "parseDecimal_renderDecimal", "roundRat_of_inInterval", "shortestDigits_inInterval",
                          "codecLaws_float", "codecLaws_float32", "editor_block_roundtrip_ieee", "difficulty_block_roundtrip_ieee",
-                         "events_block_roundtrip_ieee"]
+                         "events_block_roundtrip_ieee", "printBits_intBits_f64", "printBits_of_int_value", "intPrintLaw_float",
+                         "general_block_roundtrip_ieee"]
     partial_theorems = {
         "editor_block_roundtrip / difficulty_block_roundtrip / general_block_roundtrip / events_block_roundtrip / records_roundtrip":
             "law-dependent: proved for every number codec satisfying CodecLaws (parse(print x) = x on the representable values; printed numbers are non-empty and made of "
@@ -34,7 +35,9 @@ class C02(Property):
             "ties to even — and shortestDigits_inInterval), printBits_clean, printBits_ne_nil. For the driver's Float / Float32 instances this gives CodecLaws on the non-NaN values "
             "(codecLaws_float / codecLaws_float32, and editor_ / difficulty_ / events_block_roundtrip_ieee) from ONE hypothesis each, FloatBitsLaw / Float32BitsLaw "
             "(ofBits (toBits x) = x and toBits x is not a NaN pattern, for non-NaN x): Lean's Float is opaque to the kernel, so this statement about the runtime's bit casts cannot be proved; "
-            "it is exercised by the codec differential. Still NOT proved: IntPrintLaw for the IEEE instance (AudioLeadIn); that shortestDigits returns the shortest / closest digits and never "
+            "it is exercised by the codec differential. IntPrintLaw (AudioLeadIn) is proved at the bit level too: every integer z with |z| < 2^53 prints as intDigits z "
+            "(printBits_intBits_f64, where intBits fmt64 z is the pattern roundRat / parseBits assigns to z; printBits_of_int_value for any integer-valued pattern), and IntPrintLaw Float "
+            "(intPrintLaw_float, general_block_roundtrip_ieee) follows from the runtime hypothesis FloatOfIntLaw (Float.ofInt z has that pattern on the i32 range). Still NOT proved: that shortestDigits returns the shortest / closest digits and never "
             "reaches its exact-expansion fallback (irrelevant for the round trip, relevant only for agreement with Rust); and that Rust's own Display/FromStr equal printBits/parseBits "
             "(recorded assumption, compared on >10^6 values per run by lib/codecgen.py). metadata_block_roundtrip and "
             "colours_block_roundtrip need no law (integers: int_display_parse is proved of the model's own i32/u32/u8 codec)",
@@ -67,7 +70,7 @@ class C02(Property):
         "Lean 4.33.0 kernel; axioms ⊆ {propext, Classical.choice, Quot.sound} per #print axioms",
         "hand-written decode + encode models tied to /repo by the `rt` differential of this run",
         "number codec: the model's printBits/parseBits are proved mutually inverse on non-NaN patterns; that they equal Rust's Display/FromStr is tested (lib/codecgen.py), not proved; "
-        "FloatBitsLaw / Float32BitsLaw (bit casts of Lean's runtime Float) is a hypothesis of codecLaws_float(32), not provable in the kernel",
+        "FloatBitsLaw / Float32BitsLaw (bit casts of Lean's runtime Float) and FloatOfIntLaw (Float.ofInt on the i32 range) are hypotheses of codecLaws_float(32) / intPrintLaw_float, not provable in the kernel",
     ]
     assumptions = ["domain check (chronological object and accepted timing lines) is made on the implementation's own pre-sort objects and parser log",
                    "slider velocity (carried only through 100/(100/sv)) may drift by ≤ 4 ulp; reported in the OK line, larger drift fails"]
